@@ -165,8 +165,9 @@ package gocql
 // frame flags of a new framer: compression (0x01) with a compressor, use-beta (0x10) for v5, nothing else
 //@   ensures[C03] result.flags&0xee == 0 && (result.flags&0x10 != 0) == (version == 5)
 
+// (C01: the stream id put in the header is the one the request was registered under, in the width of the version)
 //@ func (f *framer) writeHeader
-//@   props C03 C18
+//@   props C03 C18 C01
 //@   requires (f.proto > 2 ==> f.headSize == 9) && (f.proto <= 2 ==> f.headSize == 8)
 //@   modifies f.buf
 //@   ensures len(f.buf) == f.headSize && f.buf[0] == f.proto && f.buf[1] == flags
@@ -424,6 +425,7 @@ package gocql
 //@   count_calls Encode writeHeader writeStringMap finish
 //@   requires framer_ok(f) && stream_ok(f, streamID) && len(w.opts) <= 65535 && forall(string(s), haskey(w.opts, s) ==> len(s) <= 65535 && len(w.opts[s]) <= 65535)
 //@   before[C03] writeHeader: writeHeader_calls == 1 && arg1 == f.flags&0xfe && arg2 == 0x01 && arg3 == streamID && writeStringMap_calls == 0
+//@   before[C01] writeHeader: arg3 == streamID
 //@   before[C03] writeStringMap: writeStringMap_calls == 1 && writeHeader_calls == 1 && arg1 == w.opts && finish_calls == 0
 //@   before[C03] finish: writeStringMap_calls == 1 && finish_calls == 1
 //@   running writeHeader_calls == 1 && finish_calls == 0 ==> header_is(f, byte(0x01), streamID) && f.buf[1] == f.flags&0xfe
@@ -437,6 +439,7 @@ package gocql
 //@   count_calls Encode writeHeader finish
 //@   requires framer_ok(f) && stream_ok(f, stream)
 //@   before[C03] writeHeader: writeHeader_calls == 1 && arg1 == f.flags&0xfe && arg2 == 0x05 && arg3 == stream
+//@   before[C01] writeHeader: arg3 == stream
 //@   ensures[C18] Encode_calls == 0
 //@   ensures[C03] result == nil ==> header_is(f, byte(0x05), stream) && length_is(f) && len(f.buf) == f.headSize && f.buf[1] == f.flags&0xfe
 //@   ensures result == nil ==> f.buf[1]&0x01 == 0 && len(f.buf) == f.headSize
@@ -454,6 +457,7 @@ package gocql
 //@   may_soft_panic
 //@   ensures[C03] soft_panic() == ((len(w.customPayload) > 0 && f.proto < 4) || (f.proto <= 4 && w.keyspace != ""))
 //@   before[C03] writeHeader: writeHeader_calls == 1 && arg1 == f.flags && arg1 == old(f.flags) | ite(len(w.customPayload) > 0, 0x04, 0) && arg2 == 0x09 && arg3 == streamID
+//@   before[C01] writeHeader: arg3 == streamID
 //@   before[C03] writeCustomPayload: writeHeader_calls == 1 && writeCustomPayload_calls == 1 && writeLongString_calls == 0
 //@   before[C03] writeLongString: writeCustomPayload_calls == 1 && writeLongString_calls == 1 && arg1 == w.statement && writeUint_calls + writeString_calls == 0
 //@   before[C03] writeUint: f.proto >= 5 && writeLongString_calls == 1 && writeUint_calls == 1 && writeString_calls == 0 && arg1 == ite(w.keyspace != "", 1, 0)
@@ -468,6 +472,7 @@ package gocql
 //@   count_calls writeHeader writeBytes finish
 //@   requires framer_ok(f) && stream_ok(f, streamID)
 //@   before[C03] writeHeader: writeHeader_calls == 1 && arg1 == f.flags && arg2 == 0x0f && arg3 == streamID && writeBytes_calls == 0
+//@   before[C01] writeHeader: arg3 == streamID
 //@   before[C03] writeBytes: writeHeader_calls == 1 && writeBytes_calls == 1 && same(arg1, data) && finish_calls == 0
 //@   before[C03] finish: writeBytes_calls == 1 && finish_calls == 1
 //@   running writeHeader_calls == 1 && finish_calls == 0 ==> header_is(f, byte(0x0f), streamID) && f.buf[1] == f.flags
@@ -484,6 +489,7 @@ package gocql
 //@   count_calls writeHeader writeStringList finish
 //@   requires framer_ok(f) && stream_ok(f, streamID) && w != nil && len(w.events) <= 65535 && forall(j, 0 <= j && j < len(w.events), len(w.events[j]) <= 65535)
 //@   before[C03] writeHeader: writeHeader_calls == 1 && arg1 == f.flags && arg2 == 0x0b && arg3 == streamID && writeStringList_calls == 0
+//@   before[C01] writeHeader: arg3 == streamID
 //@   before[C03] writeStringList: writeHeader_calls == 1 && writeStringList_calls == 1 && same(arg1, w.events) && finish_calls == 0
 //@   before[C03] finish: writeStringList_calls == 1 && finish_calls == 1
 //@   running writeHeader_calls == 1 && finish_calls == 0 ==> header_is(f, byte(0x0b), streamID) && f.buf[1] == f.flags
@@ -502,6 +508,7 @@ package gocql
 //@   may_soft_panic
 //@   ensures[C03] soft_panic() == ((len(customPayload) > 0 && f.proto < 4) || (f.proto >= 2 && f.proto <= 4 && params.keyspace != ""))
 //@   before[C03] writeHeader: writeHeader_calls == 1 && arg1 == f.flags && arg1 == old(f.flags) | ite(len(customPayload) > 0, 0x04, 0) && arg2 == 0x07 && arg3 == streamID
+//@   before[C01] writeHeader: arg3 == streamID
 //@   before[C03] writeCustomPayload: writeHeader_calls == 1 && writeCustomPayload_calls == 1 && writeLongString_calls == 0
 //@   before[C03] writeLongString: writeCustomPayload_calls == 1 && writeLongString_calls == 1 && arg1 == statement && writeQueryParams_calls == 0
 //@   before[C03] writeQueryParams: writeLongString_calls == 1 && writeQueryParams_calls == 1 && arg1 == params && finish_calls == 0
@@ -523,6 +530,7 @@ package gocql
 //@   may_soft_panic
 //@   ensures[C03] soft_panic() == ((len(*customPayload) > 0 && f.proto < 4) || (f.proto >= 2 && f.proto <= 4 && params.keyspace != ""))
 //@   before[C03] writeHeader: writeHeader_calls == 1 && arg1 == f.flags && arg1 == old(f.flags) | ite(len(*customPayload) > 0, 0x04, 0) && arg2 == 0x0a && arg3 == streamID
+//@   before[C01] writeHeader: arg3 == streamID
 //@   before[C03] writeCustomPayload: writeHeader_calls == 1 && writeCustomPayload_calls == 1 && arg1 == customPayload && writeShortBytes_calls == 0
 //@   before[C03] writeShortBytes: writeCustomPayload_calls == 1 && writeShortBytes_calls == 1 && same(arg1, preparedID) && writeQueryParams_calls + writeShort_calls == 0
 //@   before[C03] writeQueryParams: f.proto > 1 && writeShortBytes_calls == 1 && writeQueryParams_calls == 1 && arg1 == params && finish_calls == 0
@@ -555,6 +563,7 @@ package gocql
 //@   may_soft_panic
 //@   ensures[C03] soft_panic() == (len(customPayload) > 0 && f.proto < 4)
 //@   before[C03] writeHeader: writeHeader_calls == 1 && arg1 == f.flags && arg1 == old(f.flags) | ite(len(customPayload) > 0, 0x04, 0) && arg2 == 0x0d && arg3 == streamID
+//@   before[C01] writeHeader: arg3 == streamID
 //@   before[C03] writeCustomPayload: writeHeader_calls == 1 && writeCustomPayload_calls == 1 && writeByte_calls == 0
 //@   before[C03] writeByte: in_loop == -1 ==> (writeConsistency_calls == 0 && writeCustomPayload_calls == 1 && writeByte_calls == 1 && arg1 == byte(w.typ) && writeShort_calls == 0) || (writeConsistency_calls == 1 && f.proto >= 3 && f.proto <= 4 && writeByte_calls == len(w.statements) + 2 && (arg1&0x10 != 0) == (w.serialConsistency > 0) && (arg1&0x20 != 0) == w.defaultTimestamp && arg1&0xcf == 0 && writeLong_calls == 0)
 //@   before[C03] writeShort: in_loop == -1 ==> writeByte_calls == 1 && writeShort_calls == 1 && int(arg1) == len(w.statements)
@@ -2303,9 +2312,14 @@ package gocql
 //@   trusted observers only observe
 //@   preserves_types Conn callReq IDGenerator Session framer frameHeader
 
+// the body of a frame nobody waits for is skipped on the connection's own buffered reader (the bytes may already
+// sit in its buffer: reading the raw socket instead would desynchronise the stream and stall every later response)
 //@ func (c *Conn) discardFrame
-//@   props C01
-//@   trusted skips the body of a frame nobody waits for (io.CopyN on the connection reader)
+//@   props C01 C06
+//@   count_calls CopyN
+//@   requires c != nil
+//@   before[C01,C06] CopyN: typeis(arg1, *Conn) && unbox(arg1, *Conn) == c && arg2 == int64(head.length)
+//@   ensures CopyN_calls == 1
 //@   preserves_types Conn callReq IDGenerator Session
 
 // The receive step (one frame): the response is handed to exactly the call registered under the
@@ -2362,6 +2376,22 @@ package gocql
 //@   ensures c.streams == old(c.streams) && c.cfg == old(c.cfg) && c.compressor == old(c.compressor) && c.session == old(c.session) && c.host == old(c.host) && c.version == old(c.version) && c.logger == old(c.logger)
 
 // closing: every call still waiting gets the error on its own channel (or has given up), nothing else
+// Closing a pool closes its connections; a connection whose net.Conn.Close fails reports that to the pool
+// (HandleError takes pool.mu), so the connections are closed only after pool.mu has been released - otherwise
+// closing never returns. The lock is released on every path.
+//@ func (pool *hostConnPool) Close
+//@   props C06
+//@   requires pool != nil
+//@   before[C06] Conn.Close: !held(pool.mu)
+//@   ensures[C06] !held(pool.mu)
+//@   loop 0: invariant !held(pool.mu)
+
+// (a connection that sits in a pool is a well-formed one: assumed here, established by its constructor)
+//@ func (c *Conn) Close
+//@   props C06
+//@   nil_receiver_ok
+//@   assume c != nil ==> conn_ok(c)
+
 //@ func (c *Conn) closeWithError
 //@   props C06 C01
 //@   nil_receiver_ok
@@ -2396,6 +2426,9 @@ package gocql
 //@   stable_across StreamStarted: c.calls
 //@   stable_across buildFrame: c.calls
 //@   stable_across writeContext: c.calls
+// the response channel is unbuffered: recv hands a response only to a caller that is there to take it - with a
+// buffer a late response could be parked for a caller that has left, and its stream would never be released
+//@   before[C06] addCall: chancap(arg1.resp) == 0
 //@   before[C01] addCall: arg0 == c && GetStream_calls == 1 && GetStream_ret1 && arg1.streamID == GetStream_ret0 && fresh(arg1) && fresh(arg1.resp) && fresh(arg1.timeout)
 //@   before[C01] buildFrame: arg1 == GetStream_ret0 && addCall_calls == 1 && addCall_ret0 == nil
 //@   before[C07] writeContext: same(arg1, framer.buf) && buildFrame_calls == 1 && buildFrame_ret0 == nil
